@@ -175,4 +175,139 @@ theorem deliver_stream (F : Nat) (lp : Bool) (hF : Gen.minimumFragmentSize ≤ F
       rw [r1]
       simp [forget, canonBase]
 
+/-! ### the sender side: schedules of application sends and sender passes -/
+
+open SendQueue
+
+/-- the source queued for a frame: its stream id and its fragments -/
+def srcOf (F : Nat) (lp : Bool) (b : Base α) : Src (FFrame α) := ⟨b.sid, toFrames b F lp⟩
+
+/-- a schedule: `some b` = the application hands frame `b` to `send_frame`; `none` = one pass of
+the sender task -/
+def evsOf (F : Nat) (lp : Bool) : List (Option (Base α)) → List (Ev (FFrame α))
+  | [] => []
+  | some b :: r => .enq (srcOf F lp b) :: evsOf F lp r
+  | none :: r => .step :: evsOf F lp r
+
+def handed : List (Option (Base α)) → List (Base α)
+  | [] => []
+  | some b :: r => b :: handed r
+  | none :: r => handed r
+
+theorem toFrames_ne_nil (F : Nat) (lp : Bool) (hF : Gen.minimumFragmentSize ≤ F) (b : Base α)
+    (hty : b.ty ∈ Gen.fragmentableTypes) : toFrames b F lp ≠ [] := by
+  obtain ⟨x, t, he, _⟩ := c03_first_type_and_n b F lp hty hF
+  rw [he]; simp
+
+theorem toFrames_sid (F : Nat) (lp : Bool) (hF : Gen.minimumFragmentSize ≤ F) (b : Base α)
+    (hty : b.ty ∈ Gen.fragmentableTypes) : ∀ f ∈ toFrames b F lp, f.sid = b.sid := by
+  obtain ⟨x, t, he, _, _, hx, ht⟩ := c03_first_type_and_n b F lp hty hF
+  rw [he]
+  intro f hf
+  simp only [List.mem_cons] at hf
+  rcases hf with rfl | hf
+  · exact hx
+  · exact (ht f hf).2.2
+
+theorem legal_evsOf (F : Nat) (lp : Bool) (hF : Gen.minimumFragmentSize ≤ F) (sched : List (Option (Base α)))
+    (hty : ∀ b, some b ∈ sched → b.ty ∈ Gen.fragmentableTypes) : ∀ s, Legal s (evsOf F lp sched) := by
+  induction sched with
+  | nil => intro s; trivial
+  | cons x r ih =>
+    intro s
+    cases x with
+    | none => exact ⟨trivial, ih (fun b hb => hty b (by simp [hb])) _⟩
+    | some b =>
+      exact ⟨toFrames_ne_nil F lp hF b (hty b (by simp)), ih (fun b' hb => hty b' (by simp [hb])) _⟩
+
+theorem queuedFor_evsOf (F : Nat) (lp : Bool) (sid : Nat) (sched : List (Option (Base α))) :
+    queuedFor sid (evsOf F lp sched) = ((handed sched).filter (·.sid == sid)).flatMap (toFrames · F lp) := by
+  induction sched with
+  | nil => rfl
+  | cons x r ih =>
+    cases x with
+    | none => simpa [evsOf, queuedFor, handed] using ih
+    | some b =>
+      simp only [evsOf, queuedFor, handed, srcOf, List.filter_cons, ih]
+      split <;> simp
+
+/-- a property of (stream id, fragment) pairs that holds of everything queued holds of everything
+on the wire -/
+def QInv (P : Nat → FFrame α → Prop) (s : State (FFrame α)) : Prop :=
+  (∀ src ∈ s.queue, ∀ f ∈ src.frags, P src.sid f) ∧ (∀ p ∈ s.wire, P p.1 p.2)
+
+theorem qinv_step (P : Nat → FFrame α → Prop) (s : State (FFrame α)) (h : QInv P s) : QInv P (step s) := by
+  obtain ⟨hq, hw⟩ := h
+  unfold step
+  cases hqq : s.queue with
+  | nil => simp only; exact ⟨by rw [hqq]; simp, hw⟩
+  | cons hd t =>
+    rw [hqq] at hq
+    simp only
+    cases hf : hd.frags with
+    | nil => exact ⟨fun src hs => hq src (by simp [hs]), hw⟩
+    | cons f rest =>
+      have hfs : P hd.sid f := hq hd (by simp) f (by simp [hf])
+      cases rest with
+      | nil =>
+        refine ⟨fun src hs => hq src (by simp [hs]), ?_⟩
+        intro p hp
+        simp only [List.mem_append, List.mem_singleton] at hp
+        rcases hp with hp | rfl
+        · exact hw p hp
+        · exact hfs
+      | cons g rest' =>
+        refine ⟨?_, ?_⟩
+        · intro src hs
+          simp only [cycle, List.mem_append, List.mem_filter, List.mem_cons] at hs
+          rcases hs with ⟨hs | hs, _⟩ | ⟨hs | hs, _⟩
+          · subst hs; intro f' hf'; exact hq hd (by simp) f' (by rw [hf]; simp at hf' ⊢; right; exact hf')
+          · exact hq src (by simp [hs])
+          · subst hs; intro f' hf'; exact hq hd (by simp) f' (by rw [hf]; simp at hf' ⊢; right; exact hf')
+          · exact hq src (by simp [hs])
+        · intro p hp
+          simp only [List.mem_append, List.mem_singleton] at hp
+          rcases hp with hp | rfl
+          · exact hw p hp
+          · exact hfs
+
+theorem qinv_run (P : Nat → FFrame α → Prop) (F : Nat) (lp : Bool) (sched : List (Option (Base α)))
+    (hP : ∀ b, some b ∈ sched → ∀ f ∈ toFrames b F lp, P b.sid f) : ∀ s, QInv P s → QInv P (run s (evsOf F lp sched)) := by
+  induction sched with
+  | nil => intro s h; exact h
+  | cons x r ih =>
+    intro s h
+    cases x with
+    | none =>
+      simp only [evsOf, run, List.foldl_cons, apply]
+      exact ih (fun b hb => hP b (by simp [hb])) _ (qinv_step P s h)
+    | some b =>
+      simp only [evsOf, run, List.foldl_cons, apply]
+      refine ih (fun b' hb => hP b' (by simp [hb])) _ ⟨?_, h.2⟩
+      intro src hs
+      simp only [List.mem_append, List.mem_singleton] at hs
+      rcases hs with hs | rfl
+      · exact h.1 src hs
+      · exact hP b (by simp)
+
+/-- wire entries carry frames of the stream they are filed under -/
+def Cons (s : State (FFrame α)) : Prop := QInv (fun sid f => f.sid = sid) s
+
+theorem cons_run (F : Nat) (lp : Bool) (hF : Gen.minimumFragmentSize ≤ F) (sched : List (Option (Base α)))
+    (hty : ∀ b, some b ∈ sched → b.ty ∈ Gen.fragmentableTypes) : ∀ s, Cons s → Cons (run s (evsOf F lp sched)) :=
+  qinv_run _ F lp sched (fun b hb => toFrames_sid F lp hF b (hty b hb))
+
+theorem wire_proj (s : State (FFrame α)) (h : Cons s) (sid : Nat) :
+    (s.wire.map (·.2)).filter (·.sid == sid) = wireOf sid s.wire := by
+  obtain ⟨_, hw⟩ := h
+  unfold wireOf
+  generalize s.wire = w at hw
+  induction w with
+  | nil => rfl
+  | cons p t ih =>
+    have hp := hw p (by simp)
+    have ht := ih (fun q hq => hw q (by simp [hq]))
+    simp only [List.map_cons, List.filter_cons, hp, ht]
+    split <;> simp
+
 end RSocketModel.Pipeline
